@@ -785,11 +785,28 @@ pub fn run(ctx: &Ctx) {
     let corpus = corpus::load();
     let n = std::env::var("VERIF_C06_CASES").ok().and_then(|x| x.parse().ok()).unwrap_or_else(|| ctx.scale(400, 20_000));
     // explicit cases: `--replay` of a written-out case, reproducers of listed findings
+    let listed: Vec<String> = ctx.findings().iter().map(|k| k.key.clone()).collect();
+    let explicit_broke = std::sync::atomic::AtomicBool::new(false);
     ctx.run_payloads("explicit", |p| match case_from_json(p) {
-        Some(c) => decide(&c),
+        Some(c) => {
+            let o = decide(&c);
+            if let Outcome::Fail(f) = &o
+                && !listed.contains(&f.signature)
+            {
+                explicit_broke.store(true, std::sync::atomic::Ordering::Relaxed);
+            }
+            o
+        }
         None => Outcome::skip("malformed explicit case"),
     });
-    ctx.run("restore", CaseCfg::cases(n).choices(1200).stack_mb(16), |d| run_case(d, &corpus));
+    // A reproducer of a listed finding that now fails differently is already a
+    // violation; a regression that bad tends to end in unbounded recursion in
+    // pass 2, which would take the whole process down (exit 2) — stop here.
+    if !explicit_broke.load(std::sync::atomic::Ordering::Relaxed) {
+        // shrinking re-runs three pipelines per step and the failure message
+        // carries the whole case, so only a few steps
+        ctx.run("restore", CaseCfg::cases(n).choices(1200).stack_mb(16).shrink_iters(24), |d| run_case(d, &corpus));
+    }
     ctx.assume("in-process: the harness calls fragment_cache::{watermark,capture,restore}, Fragment::{to_bytes,from_bytes}, scope::set_project and Analyzer::drop_file in the order pipeline.rs / incremental.rs (CLI) and server.rs / incremental.rs (language server) do; the on-disk store (veryl_cache::Store) is C29's subject");
     ctx.assume("a restored file gets no pass 2 and is not emitted (the pipeline has no AST for it); its fresh-parse counterpart is treated the same way, so the comparison isolates the fragment");
     ctx.assume("runs stop like fail_fast: after post-pass1, at the first file whose pass 2 reports an error, or after post-pass2 when an error was reported; both runs must stop at the same point with the same diagnostics");
